@@ -172,3 +172,36 @@ func VerifLogger(w io.Writer, lvl log.Level) *log.Logger {
 	l.SetLevel(lvl)
 	return l
 }
+
+// VerifIngestCounters returns (messages received by the distributor, messages dropped).
+func (rm *RegistrationManager) VerifIngestCounters() (int64, int64, int64, int64) {
+	return atomic.LoadInt64(&rm.totalIngestMessages), atomic.LoadInt64(&rm.totalDroppedMessages), atomic.LoadInt64(&rm.newIngestMessages), atomic.LoadInt64(&rm.newDroppedMessages)
+}
+
+// VerifDumpFull renders the tracked state with counts, coverts and used flags.
+func (rm *RegistrationManager) VerifDumpFull() string {
+	r := rm.registeredDecoys
+	var lines []string
+	for ph, m := range r.decoys {
+		for id, d := range m {
+			lines = append(lines, fmt.Sprintf("D %s %x valid=%v n=%d covert=%s", ph, id[:4], d.Valid, d.regCount, d.Covert))
+		}
+	}
+	for _, t := range r.decoysTimeouts {
+		lines = append(lines, fmt.Sprintf("T %s %x used=%v", t.decoy, t.identifier[:4], t.status == regStatusUsed))
+	}
+	sort.Strings(lines)
+	return strings.Join(lines, "; ")
+}
+
+// VerifStateKey digests the shared registry state (for explorer state keys).
+func (rm *RegistrationManager) VerifStateKey() uint64 {
+	h := uint64(1469598103934665603)
+	for _, c := range []byte(rm.VerifDumpFull()) {
+		h = (h ^ uint64(c)) * 1099511628211
+	}
+	return h ^ rm.registeredDecoys.m.VerifState()<<7
+}
+
+// VerifHandleRegUpdates runs the real pipeline.
+func (rm *RegistrationManager) VerifSetWorkers(n int) { rm.IngestWorkerCount = n }
